@@ -25,21 +25,21 @@ Ltac use_globals Hg :=
 
 Ltac open_wf Hwf :=
   let Hnd := fresh "Hnd" in let Hal := fresh "Hal" in let Hr := fresh "Hr" in
-  destruct Hwf as [Hnd Hal Hr Hg Hn Hm]; cbn [stack pool heap next mem] in *;
+  destruct Hwf as [Hnd Hal Hr Hg Hn Hm]; cbn [stack pool heap next mem stor] in *;
   cbn [app] in *; nd_hyps; use_globals Hg.
 
 Ltac start1 :=
-  intros code pc [h nx st pl m] st' Hwf Happ;
+  intros code pc [h nx st pl m sr] st' Hwf Happ;
   unfold svals in Happ; cbn [stack heap] in Happ;
   destruct st as [|la ls]; cbn in Happ; try discriminate; injection Happ as <-;
   open_wf Hwf; unfold run_body.
 Ltac start2 :=
-  intros code pc [h nx st pl m] st' Hwf Happ;
+  intros code pc [h nx st pl m sr] st' Hwf Happ;
   unfold svals in Happ; cbn [stack heap] in Happ;
   destruct st as [|la [|lb ls]]; cbn in Happ; try discriminate; injection Happ as <-;
   open_wf Hwf; unfold run_body.
 Ltac start3 :=
-  intros code pc [h nx st pl m] st' Hwf Happ;
+  intros code pc [h nx st pl m sr] st' Hwf Happ;
   unfold svals in Happ; cbn [stack heap] in Happ;
   destruct st as [|la [|lb [|lc ls]]]; cbn in Happ; try discriminate; injection Happ as <-;
   open_wf Hwf; unfold run_body.
